@@ -252,10 +252,13 @@ func Build(s LibSpec) glyf.Glyphs {
 				// instructions; the flag goes alternately on the first record only, on the last
 				// only, and on every record (a reader must find the block in all three cases)
 				cg := g.Data.(glyf.CompositeGlyph)
-				switch withInstr % 3 {
-				case 0:
+				switch {
+				case len(cg.Components) < 2:
 					cg.Components[0].Flags |= glyf.FlagWeHaveInstructions
-				case 1:
+					withInstr-- // does not count: the three placements coincide
+				case withInstr%3 == 0:
+					cg.Components[0].Flags |= glyf.FlagWeHaveInstructions
+				case withInstr%3 == 1:
 					cg.Components[len(cg.Components)-1].Flags |= glyf.FlagWeHaveInstructions
 				default:
 					for j := range cg.Components {
